@@ -87,11 +87,13 @@ pub struct HistParams {
     pub max_entries: usize,
     pub bulk_n: u16,
     pub big_values: bool,
-    pub rollback: bool,
+    /// 0 = never, 1 = 60% of cases, 2 = always
+    pub rollback: u8,
     pub reopen_weight: u32,
     pub overlay_weight: u32,
     pub witness_weight: f64,
     pub ext4_weight: u32,
+    pub rollback_weight: u32,
 }
 
 pub fn commit_strategy(p: &HistParams) -> impl Strategy<Value = CommitSpec> {
@@ -124,15 +126,15 @@ pub fn commit_strategy(p: &HistParams) -> impl Strategy<Value = CommitSpec> {
 }
 
 pub fn history_strategy(p: HistParams) -> impl Strategy<Value = History> {
-    let rb = if p.rollback {
-        prop::bool::weighted(0.6).boxed()
-    } else {
-        Just(false).boxed()
+    let rb = match p.rollback {
+        0 => Just(false).boxed(),
+        1 => prop::bool::weighted(0.6).boxed(),
+        _ => Just(true).boxed(),
     };
     let step = prop_oneof![
         (100 - p.reopen_weight) => commit_strategy(&p).prop_map(Step::Commit),
         p.reopen_weight => gen::cfg_strategy(Just(false).boxed(), 0).prop_map(Step::Reopen),
-        (if p.rollback { 12 } else { 0 }) => (0u8..=6).prop_map(Step::Rollback),
+        (if p.rollback > 0 { p.rollback_weight } else { 0 }) => prop_oneof![4 => 0u8..=3, 2 => 0u8..=7].prop_map(Step::Rollback),
     ];
     (
         any::<u64>(),
@@ -401,6 +403,8 @@ pub struct Runner<'a, H: HK> {
     pub budget: Budget,
     pub ver: u32,
     pub commits: usize,
+    /// Replace rollback depths in the unspecified region (retained < n <= commits) by the guaranteed depth.
+    pub clamp_rollback: bool,
 }
 
 pub enum StepOutcome {
@@ -423,6 +427,7 @@ impl<'a, H: HK> Runner<'a, H> {
             budget: Budget { left: budget },
             ver: 1,
             commits: 0,
+            clamp_rollback: false,
         })
     }
 
@@ -455,6 +460,11 @@ impl<'a, H: HK> Runner<'a, H> {
     }
 
     fn rollback(&mut self, i: usize, n: usize) -> Result<StepOutcome, Violation> {
+        let n = if self.clamp_rollback && n > self.model.guaranteed && n <= self.model.snaps.len() {
+            self.model.guaranteed
+        } else {
+            n
+        };
         let before_root = self.db().root();
         let before_seqn = self.db().seqn();
         let res = self.db().rollback(n);
@@ -478,6 +488,15 @@ impl<'a, H: HK> Runner<'a, H> {
                             self.model.rollback
                         ),
                     ));
+                }
+                if n == self.model.guaranteed && n > 0 {
+                    self.info.bump("rollback_all_retained");
+                }
+                if n > self.model.guaranteed {
+                    self.info.bump("rollback_beyond_guaranteed_ok");
+                }
+                if self.model.snaps.len() > self.model.max_log {
+                    self.info.bump("rollback_after_pruning");
                 }
                 self.model.rollback_apply(n);
                 self.info.bump("rollbacks_ok");
